@@ -148,7 +148,7 @@ def gen_cases(tier, seed):
     # the same Server answering several SPs from several threads at once, with yields injected inside the library
     for pol in ("per-sp-mixed", "ec-swamid", "regex"):
         for k in range(4 if tier == "quick" else 30):
-            cases.append({"id": "threads|%s|%d" % (pol, k), "sig": ["threads", pol, k], "kind": "sequence", "threads": 3, "policy": pol, "k": k,
+            cases.append({"id": "threads|%s|%d" % (pol, k), "sig": ["threads", pol, k], "kind": "sequence", "own_worker": True, "all_envs": True, "threads": 3, "policy": pol, "k": k,
                           "len": 24 if tier == "quick" else 80})
     return cases
 
@@ -252,7 +252,7 @@ def run_sequence(case, ctx):
                 for item in plan[i::n]:
                     answers[item[0]] = answer(item)
             return run
-        res, errs, stats = interleave.run_threads([worker(i) for i in range(n)], "%s/%s" % (ctx.seed, case["id"]), p=0.15)
+        res, errs, stats = interleave.run_threads_regimes([worker(i) for i in range(n)], "%s/%s" % (ctx.seed, case["id"]))
         counters["yields_injected"] = stats["yields_injected"]
         counters["threads_hung"] = stats["threads_hung"]
         for e in errs:
